@@ -1763,3 +1763,26 @@ pub fn channel_outbound_htlc_sources<CM: crate::ln::channelmanager::AChannelMana
 	out.sort();
 	out
 }
+
+/// (C12 / C13) `HighZeroBytesDroppedBigSize<u16 | u32 | u64>` (crate-private) read with `bytes` as its whole reader (the
+/// way a TLV record hands it over): `(value, unread byte count)`. `width` is 2, 4 or 8.
+pub fn hzd_read(width: usize, bytes: &[u8]) -> Result<(u64, usize), crate::ln::msgs::DecodeError> {
+	use crate::util::ser::{HighZeroBytesDroppedBigSize, Readable};
+	let mut s = bytes;
+	let v = match width {
+		2 => <HighZeroBytesDroppedBigSize<u16> as Readable>::read(&mut s)?.0 as u64,
+		4 => <HighZeroBytesDroppedBigSize<u32> as Readable>::read(&mut s)?.0 as u64,
+		_ => <HighZeroBytesDroppedBigSize<u64> as Readable>::read(&mut s)?.0,
+	};
+	Ok((v, s.len()))
+}
+
+/// (C12 / C13) the bytes `HighZeroBytesDroppedBigSize<u16 | u32 | u64>(v)` writes.
+pub fn hzd_write(width: usize, v: u64) -> alloc::vec::Vec<u8> {
+	use crate::util::ser::{HighZeroBytesDroppedBigSize, Writeable};
+	match width {
+		2 => HighZeroBytesDroppedBigSize(v as u16).encode(),
+		4 => HighZeroBytesDroppedBigSize(v as u32).encode(),
+		_ => HighZeroBytesDroppedBigSize(v).encode(),
+	}
+}
